@@ -416,7 +416,7 @@ func (c *checker) codeToSpec(ps []*position, strs func(p *position) []string) {
 			tok, found := p.find(out, o.it)
 			if p.asOnly || out == disCrashed {
 				o.llvmTok = o.tok
-				if out == disCrashed {
+				if !p.asOnly {
 					c.unobservable()
 				}
 			} else if found {
@@ -849,6 +849,16 @@ func (c *checker) idsStayIDs() {
 
 var classReps = []byte{'a', 'C', 'z', '5', '2', '$', '-', '.', '_', ' ', '"', '\\', 0x01, 0x7F, 0x80, 0xFF, 0x00}
 
+func stringsOfLen(alphabet []byte, n int) []string {
+	var out []string
+	for _, s := range stringsUpTo(alphabet, n) {
+		if len(s) == n {
+			out = append(out, s)
+		}
+	}
+	return out
+}
+
 func stringsUpTo(alphabet []byte, n int) []string {
 	out := []string{}
 	prev := []string{""}
@@ -988,9 +998,20 @@ func Run(tier, replay string) {
 			short = append(short, b)
 		}
 	}
+	// quick: all strings of length 3 as well in the three positions with an encoder of their own
+	// and many users (global, parameter, label)
+	var long []string
+	if tier == "quick" {
+		long = append(append(long, uniq...), stringsOfLen(classReps[:len(classReps)-1], 3)...)
+	}
 	c.codeToSpec(ps, func(p *position) []string {
-		if p.single && tier == "quick" {
-			return short
+		if tier == "quick" {
+			if p.single {
+				return short
+			}
+			if p.name == "global" || p.name == "param" || p.name == "label" {
+				return long
+			}
 		}
 		return uniq
 	})
